@@ -24,6 +24,12 @@ pub mod io { use vstd::prelude::*; verus! { pub struct Error { pub filler: u8 } 
 pub struct TailScan { pub events: Vec<Event>, pub complete: bool }
 pub struct ContinuityStreamCache { pub filler: u8 }
 impl ContinuityStreamCache {
+    #[verifier::external_body] pub fn try_replay(&self, id: &str) -> io::Result<Option<Vec<Event>>> { unimplemented!() }
+    // the sidecar file name is formed from the caller's thread id (`<dir>/<id>.jsonl`, no sanitising): a rebuild is only ever made for a
+    // thread that has frames in the truth log, i.e. an id the store itself minted
+    #[verifier::external_body] pub fn rebuild_best_effort(&self, id: &str, events: &Vec<Event>)
+        requires events@.len() > 0,      // [readonly.sidecar_rebuilt_only_for_threads_with_frames_in_the_truth_log]
+    { unimplemented!() }
     #[verifier::external_body] pub fn scan_tail_messages_runs_v1(&self, id: &str, max_events: usize, max_bytes: usize) -> io::Result<Option<TailScan>> { unimplemented!() }
     #[verifier::external_body] pub fn try_read_last_seq(&self, id: &str) -> io::Result<Option<u64>> { unimplemented!() }
     #[verifier::external_body] pub fn window_recent_messages_v1_from_message_id(&self, id: &str, anchor: &str, limit: usize) -> io::Result<Option<ContinuityWindow>> { unimplemented!() }
@@ -42,7 +48,12 @@ pub assume_specification<T, F: FnOnce() -> Option<T>>[ Option::<T>::or_else ](o:
     ensures o is Some ==> r == o, o is None ==> f.ensures((), r);
 pub assume_specification<T>[ Option::<Option<T>>::flatten ](o: Option<Option<T>>) -> (r: Option<T>)
     ensures r == (match o { Some(Some(v)) => Some(v), _ => None });
-pub struct ContinuityStore { pub stream_cache: ContinuityStreamCache }
+pub enum StreamKind { Session, Task, Continuity }
+pub struct EventLog { pub filler: u8 }
+impl EventLog {
+    #[verifier::external_body] pub fn replay_stream(&self, kind: StreamKind, id: &str) -> io::Result<Vec<Event>> { unimplemented!() }
+}
+pub struct ContinuityStore { pub stream_cache: ContinuityStreamCache, pub event_log: EventLog }
 //@@ item crates/ripd/src/continuities.rs struct ProviderCursorUpdatedPayload dropderive=Clone
 //@@ item crates/ripd/src/continuities.rs struct JobEndedPayload
 //@@ item crates/ripd/src/continuities.rs struct CompactionCheckpointCreatedPayload
@@ -69,6 +80,7 @@ pub mod rip_kernel { pub use super::{CompactionPlannedCutPoint, ContextSelection
 //@@ item crates/ripd/src/continuities.rs struct ContextSelectionStatusResetV1 dropderive=Clone
 //@@ item crates/ripd/src/continuities.rs struct ContextSelectionStatusDecisionV1 dropderive=Clone
 //@@ item crates/ripd/src/continuities.rs struct ContextSelectionStatusV1Response dropderive=Clone
+//@@ include prelude/provider_cursor_status_types.rs
 impl ContinuityStore {
     #[verifier::external_body] pub fn get(&self, id: &str) -> Option<ContinuityMeta> { unimplemented!() }
     // the truth-log writers of the store: present with their real signatures, unreachable by contract
@@ -86,7 +98,10 @@ impl ContinuityStore {
     //@@ forbidstub crates/ripd/src/continuities.rs ContinuityStore::create_continuity
     #[verifier::external_body] pub fn compaction_cut_points_v1(&self, id: &str, req: CompactionCutPointsV1Request) -> Result<CompactionCutPointsV1Response, String> { unimplemented!() }
     #[verifier::external_body] pub fn find_inflight_compaction_job_id_best_effort_v1(&self, id: &str) -> Option<String> { unimplemented!() }
-    #[verifier::external_body] pub fn replay_events(&self, id: &str) -> io::Result<Vec<Event>> { unimplemented!() }
+
+    //@@ fn crates/ripd/src/continuities.rs ContinuityStore::replay_events
+    //@@ sig
+    //@@ end
 
     //@@ fn crates/ripd/src/continuities.rs ContinuityStore::compaction_status_v1 rules=R9 r7=1,2
     //@@ sig
@@ -99,6 +114,19 @@ impl ContinuityStore {
     //@@ loop 2
         invariant __i2 <= __s2.len(),
         decreases __s2.len() - __i2
+    //@@ end
+
+    //@@ include prelude/provider_cursor_status_rewrites.rs
+    //@@ sig
+    //@@ loop 0
+        invariant 256 * 1024 <= tail_bytes <= 8 * 1024 * 1024,
+        decreases 8 * 1024 * 1024 - tail_bytes          // [readonly.provider_cursor_status]
+    //@@ loop 1
+        invariant __i1 <= __s1.len(), 256 * 1024 <= tail_bytes <= 8 * 1024 * 1024,
+        decreases __i1
+    //@@ loop 2
+        invariant __i2 <= __s2.len(),
+        decreases __i2
     //@@ end
 
     //@@ fn crates/ripd/src/continuities.rs ContinuityStore::context_selection_status_v1 rules=R9 r7=1,2
